@@ -20,8 +20,12 @@ static const uint8_t  TYPV[] = { 1, 254, 255 };
 static const uint8_t  SUBK[] = { 1, 2, 8 };
 
 typedef struct { uint32_t cob; uint8_t type, count; uint32_t map[8]; } MP;       /* map[k-1] for sub k */
-static struct { uint8_t op; MP p[2]; } M;                                         /* p[0] RPDO0, p[1] TPDO0 */
-static const uint32_t COB0[2] = { 0x00000201u, 0x40000181u };
+static struct { uint8_t op; MP p[2]; } M;                                         /* p[0] RPDO #PN, p[1] TPDO #PN */
+/* cfg selects the number PN of the RPDO/TPDO pair under reconfiguration; the other three pairs are valid bystanders (one 16-bit object
+ * each) that must keep working as configured whatever is written to pair PN - index arithmetic 14xxh/16xxh/18xxh/1Axxh + n */
+static int PN;
+static const uint32_t COBASE[2] = { 0x00000201u, 0x40000181u };
+#define COB0(pdo) (COBASE[pdo] + 0x100u * (uint32_t)PN)
 
 /* events per PDO: 6 id values, 3 types, 7 counts, 3*9 map writes (subs 1,2,8), 3 fill macros (all 8 entries := 32-bit / 64-bit / 8-bit object) = 46 */
 #define EPP (6 + 3 + NCNT + 3 * NMAPV + 3)
@@ -31,23 +35,27 @@ static const uint32_t COB0[2] = { 0x00000201u, 0x40000181u };
 enum { E_START = 2 * EPP, E_PREOP, E_N };
 static uint32_t idval(int pdo, int k)
 {
-    uint32_t base = COB0[pdo];
-    switch (k) { case 0: return base; case 1: return base | 0x80000000u; case 2: return base + 0x100; case 3: return (base + 0x100) | 0x80000000u; case 4: return base | 0x20000000u | 0x80000000u; default: return (base & ~0x40000000u) | 0x80000000u | (pdo ? 0 : 0x20000000u); }
+    uint32_t base = COB0(pdo);
+    switch (k) { case 0: return base; case 1: return base | 0x80000000u; case 2: return base + 0x010; case 3: return (base + 0x010) | 0x80000000u; case 4: return base | 0x20000000u | 0x80000000u; default: return (base & ~0x40000000u) | 0x80000000u | (pdo ? 0 : 0x20000000u); }
 }
-static const char *cfg_name(int c) { return c ? "started OPERATIONAL" : "PRE-OPERATIONAL"; }
+static const char *cfg_name(int c) { static char b[64]; snprintf(b, sizeof b, "PDO pair #%d, %s", c < 2 ? 0 : c < 4 ? 1 : 3, c & 1 ? "started OPERATIONAL" : "PRE-OPERATIONAL"); return b; }
 
 static int build(int cfg)
 {
     nc_defaults();
     NC.sync = 1; NC.sync_id = 0x80;
-    NC.n_rpdo = 1; NC.rpdo[0].present = 1; NC.rpdo[0].cobid = COB0[0]; NC.rpdo[0].type = 255; NC.rpdo[0].nmap = 1; NC.rpdo[0].map[0] = M8;
-    NC.n_tpdo = 1; NC.tpdo[0].present = 1; NC.tpdo[0].cobid = COB0[1]; NC.tpdo[0].type = 254; NC.tpdo[0].nmap = 1; NC.tpdo[0].map[0] = M8;
-    NC.operational = cfg;
+    PN = cfg < 2 ? 0 : cfg < 4 ? 1 : 3;
+    NC.n_rpdo = 4; NC.n_tpdo = 4;
+    for (int i = 0; i < 4; i++) {
+        NC.rpdo[i].present = 1; NC.rpdo[i].cobid = COBASE[0] + 0x100u * (uint32_t)i; NC.rpdo[i].type = 255; NC.rpdo[i].nmap = 1; NC.rpdo[i].map[0] = i == PN ? M8 : M16;
+        NC.tpdo[i].present = 1; NC.tpdo[i].cobid = COBASE[1] + 0x100u * (uint32_t)i; NC.tpdo[i].type = 254; NC.tpdo[i].nmap = 1; NC.tpdo[i].map[0] = i == PN ? M8 : M16;
+    }
+    NC.operational = cfg & 1;
     nc_build();
     (void)CONodeGetErr(&Node);
     memset(&M, 0, sizeof M);
-    M.op = (uint8_t)cfg;
-    for (int i = 0; i < 2; i++) { M.p[i].cob = COB0[i]; M.p[i].type = (uint8_t)(i ? 254 : 255); M.p[i].count = 1; M.p[i].map[0] = M8; }
+    M.op = (uint8_t)(cfg & 1);
+    for (int i = 0; i < 2; i++) { M.p[i].cob = COB0(i); M.p[i].type = (uint8_t)(i ? 254 : 255); M.p[i].count = 1; M.p[i].map[0] = M8; }
     W_REG(M);
     return E_N;
 }
@@ -56,7 +64,7 @@ static const char *ev_name(int e)
 {
     static char b[64];
     if (e >= E_START) return e == E_START ? "NMT start" : "NMT pre-op";
-    int pdo = e / EPP, k = e % EPP; uint16_t com = (uint16_t)(pdo ? 0x1800 : 0x1400), map = (uint16_t)(pdo ? 0x1A00 : 0x1600);
+    int pdo = e / EPP, k = e % EPP; uint16_t com = (uint16_t)((pdo ? 0x1800 : 0x1400) + PN), map = (uint16_t)((pdo ? 0x1A00 : 0x1600) + PN);
     if (k < 6) snprintf(b, sizeof b, "SDO %04Xh:1=%08X", com, idval(pdo, k));
     else if (k < 9) snprintf(b, sizeof b, "SDO %04Xh:2=%d", com, TYPV[k - 6]);
     else if (k < K_MAP0) snprintf(b, sizeof b, "SDO %04Xh:0=%d", map, CNTV[k - K_CNT0]);
@@ -81,13 +89,52 @@ static int bytes(const MP *p) { int n = 0; for (int s = 1; s <= p->count && s <=
 /* objects touched by RPDO probes are restored afterwards */
 static void restore_objects(void) { P8 = 0x22; P16 = 0x5566; P32 = 0xBBCCDDEE; W32 = 0x0E0F1011; R32 = 0x0A0B0C0D; N32 = 0x01020304; }
 
+/* the three other PDO pairs work as configured (OPERATIONAL only) */
+static int probe_bystanders(const char *when)
+{
+    static const uint8_t pay[8] = { 0xA1, 0xA2, 0xA3, 0xA4, 0xA5, 0xA6, 0xA7, 0xA8 };
+    if (!M.op) return 0;
+    for (int m = 0; m < 4; m++) {
+        if (m == PN) continue;
+        OBS.ntx = 0; OBS.ncb = 0;
+        COTPdoTrigPdo(Node.TPdo, (uint16_t)m);
+        if (OBS.ntx != 1 || OBS.tx[0].id != 0x181u + 0x100u * (uint32_t)m || OBS.tx[0].dlc != 2 || OBS.tx[0].d[0] != (uint8_t)P16 || OBS.tx[0].d[1] != (uint8_t)(P16 >> 8)) {
+            char a[40] = "-"; if (OBS.ntx) w_fmt_frame(a, sizeof a, &OBS.tx[0]);
+            mc_fail("pdo-bystander-disturbed", "%s: trigger of the untouched TPDO #%d gives %d frame(s), first %s; expected %03X with the 16-bit object", when, m, OBS.ntx, a, 0x181 + 0x100 * m); return 1; }
+        restore_objects(); OBS.ntx = 0; OBS.ncb = 0;
+        w_rx(&Node, 0x201u + 0x100u * (uint32_t)m, 8, pay);
+        if (P16 != 0xA2A1 || P8 != 0x22 || P32 != 0xBBCCDDEE || W32 != 0x0E0F1011) {
+            mc_fail("pdo-bystander-disturbed", "%s: a frame for the untouched RPDO #%d gives P16=%04X P8=%02X P32=%08X W32=%08X, expected only P16=A2A1", when, m, P16, P8, P32, W32); restore_objects(); return 1; }
+        restore_objects();
+    }
+    OBS.ntx = 0; OBS.ncb = 0;
+    return 0;
+}
+/* a PDO that is stored invalid neither transmits nor receives (any NMT state) */
+static int probe_invalid(int pdo, const char *when, uint32_t old_id)
+{
+    static const uint8_t pay[8] = { 0xB1, 0xB2, 0xB3, 0xB4, 0xB5, 0xB6, 0xB7, 0xB8 };
+    OBS.ntx = 0; OBS.ncb = 0;
+    if (pdo) {
+        COTPdoTrigPdo(Node.TPdo, (uint16_t)PN);
+        if (OBS.ntx != 0) { char a[40]; w_fmt_frame(a, sizeof a, &OBS.tx[0]); mc_fail("pdo-invalid-still-active", "%s: TPDO #%d is stored invalid but a trigger sends %s", when, PN, a); return 1; }
+    } else {
+        restore_objects();
+        w_rx(&Node, old_id & 0x7FF, 8, pay);
+        if (P8 != 0x22 || P16 != 0x5566 || P32 != 0xBBCCDDEE || W32 != 0x0E0F1011) { mc_fail("pdo-invalid-still-active", "%s: RPDO #%d is stored invalid but a frame on %03X changed a mapped object", when, PN, old_id & 0x7FF); restore_objects(); return 1; }
+        restore_objects();
+    }
+    OBS.ntx = 0; OBS.ncb = 0;
+    return 0;
+}
+
 static void probe_tpdo(const char *when)
 {
     const MP *p = &M.p[1]; int want = bytes(p), pos = 0; uint8_t d[8] = { 0 };
     OBS.ntx = 0; OBS.ncb = 0;
-    COTPdoTrigPdo(Node.TPdo, 0);
-    if (Node.TPdo[0].ObjNum > 8) { mc_fail("pdo-activated-too-many", "%s: activated TPDO has %d mapped objects", when, Node.TPdo[0].ObjNum); return; }
-    { int s = 0; for (int i = 0; i < Node.TPdo[0].ObjNum && i < 8; i++) s += Node.TPdo[0].Size[i]; if (s > 8) { mc_fail("pdo-activated-too-long", "%s: activated TPDO maps %d bytes", when, s); return; } }
+    COTPdoTrigPdo(Node.TPdo, (uint16_t)PN);
+    if (Node.TPdo[PN].ObjNum > 8) { mc_fail("pdo-activated-too-many", "%s: activated TPDO has %d mapped objects", when, Node.TPdo[PN].ObjNum); return; }
+    { int s = 0; for (int i = 0; i < Node.TPdo[PN].ObjNum && i < 8; i++) s += Node.TPdo[PN].Size[i]; if (s > 8) { mc_fail("pdo-activated-too-long", "%s: activated TPDO maps %d bytes", when, s); return; } }
     for (int i = 0; i < OBS.ntx; i++) if (OBS.tx[i].dlc > 8) { mc_fail("pdo-activated-too-long", "%s: TPDO frame with DLC %d", when, OBS.tx[i].dlc); return; }
     if (!clean(p)) return;
     if (OBS.ntx != 1 || OBS.tx[0].id != (p->cob & 0x7FF)) { mc_fail("pdo-activation-differs", "%s: trigger of the valid TPDO produced %d frame(s) (first id %03X), expected one on %03X", when, OBS.ntx, OBS.ntx ? OBS.tx[0].id : 0, p->cob & 0x7FF); return; }
@@ -103,7 +150,7 @@ static void probe_rpdo(const char *when)
     OBS.ntx = 0; OBS.ncb = 0;
     w_rx(&Node, p->cob & 0x7FF, 8, pay);
     if (p->type <= 240) w_rx(&Node, 0x80, 0, none);
-    if (Node.RPdo[0].ObjNum > 8) { mc_fail("pdo-activated-too-many", "%s: activated RPDO has %d mapped objects", when, Node.RPdo[0].ObjNum); return; }
+    if (Node.RPdo[PN].ObjNum > 8) { mc_fail("pdo-activated-too-many", "%s: activated RPDO has %d mapped objects", when, Node.RPdo[PN].ObjNum); return; }
     if (clean(p)) {
         for (int s = 1; s <= p->count; s++) {
             uint32_t m = entry(p, s), v = 0; int w = (int)(m & 0xFF) >> 3;
@@ -120,7 +167,7 @@ static void probe_rpdo(const char *when)
 /* one SDO write to a PDO parameter: kind 0 COB-ID, 1 type, 2 count, 3 mapping entry `sub`; returns 1 if a violation was recorded */
 static int one_write(int e, int pdo, int kind, int sub, uint32_t val)
 {
-    MP *p = &M.p[pdo]; uint16_t com = (uint16_t)(pdo ? 0x1800 : 0x1400), map = (uint16_t)(pdo ? 0x1A00 : 0x1600);
+    MP *p = &M.p[pdo]; uint16_t com = (uint16_t)((pdo ? 0x1800 : 0x1400) + PN), map = (uint16_t)((pdo ? 0x1A00 : 0x1600) + PN);
     int verdict = V_ACCEPT; uint32_t code = 0, r; MP next = *p; int revalidated = 0;
     if (kind == 0) {
         uint32_t nv = val;
@@ -155,14 +202,17 @@ static int one_write(int e, int pdo, int kind, int sub, uint32_t val)
     if (verdict == V_ACCEPT && r != 0) { mc_fail("pdo-write-refused", "'%s' (sub %d) refused with %08X although the CiA 301 preconditions hold (PDO %s, count %d)", ev_name(e), sub, r, valid(p) ? "valid" : "invalid", p->count); return 1; }
     if (verdict == V_REFUSE && r == 0) { mc_fail("pdo-write-accepted", "'%s' (sub %d) accepted although it must be refused (PDO %s, count %d, the counted entries would map %d bytes)", ev_name(e), sub, valid(p) ? "valid" : "invalid", p->count, kind == 2 ? bytes(&next) : bytes(p)); return 1; }
     if (verdict == V_REFUSE && code && r != code) { mc_fail("pdo-write-abort-code", "'%s' refused with %08X, expected %08X", ev_name(e), r, code); return 1; }
-    if (r == 0) *p = next;
-    if (r == 0 && revalidated && M.op) { if (pdo) probe_tpdo("re-validation while OPERATIONAL"); else probe_rpdo("re-validation while OPERATIONAL"); }
+    { uint32_t old_id = p->cob;
+      if (r == 0) *p = next;
+      if (r == 0 && revalidated && M.op) { if (pdo) probe_tpdo("re-validation while OPERATIONAL"); else probe_rpdo("re-validation while OPERATIONAL"); }
+      if (r == 0 && kind == 0 && !valid(p) && M.op) { if (probe_invalid(pdo, "invalidation while OPERATIONAL", old_id)) return 1; }
+      if (kind == 0 && M.op) { if (probe_bystanders(r == 0 ? "after an accepted COB-ID write" : "after a refused COB-ID write")) return 1; } }
     return 0;
 }
 
 static int step(int e)
 {
-    if (e == E_START) { int was = M.op; M.op = 1; nc_nmt(1, 0); if (!was) { if (valid(&M.p[1])) probe_tpdo("entering OPERATIONAL"); if (valid(&M.p[0])) probe_rpdo("entering OPERATIONAL"); } }
+    if (e == E_START) { int was = M.op; M.op = 1; nc_nmt(1, 0); if (!was) { if (valid(&M.p[1])) probe_tpdo("entering OPERATIONAL"); if (valid(&M.p[0])) probe_rpdo("entering OPERATIONAL"); (void)probe_bystanders("entering OPERATIONAL"); } }
     else if (e == E_PREOP) { M.op = 0; nc_nmt(128, 0); }
     else {
         int pdo = e / EPP, k = e % EPP;
@@ -178,14 +228,14 @@ static int step(int e)
     /* stored configuration == model (a refused write changes nothing) */
     {
         const MP *r = &M.p[0], *t = &M.p[1];
-        if (RpCob[0] != r->cob || RpType[0] != r->type || RpNum[0] != r->count || memcmp(RpMap[0], r->map, sizeof r->map))
-            { mc_fail("pdo-stored-value", "after '%s' RPDO parameters are cob=%08X type=%d count=%d map=%08X,%08X,..,%08X; expected cob=%08X type=%d count=%d map=%08X,%08X,..,%08X", ev_name(e), RpCob[0], RpType[0], RpNum[0], RpMap[0][0], RpMap[0][1], RpMap[0][7], r->cob, r->type, r->count, r->map[0], r->map[1], r->map[7]); return MC_OK; }
-        if (TpCob[0] != t->cob || TpType[0] != t->type || TpNum[0] != t->count || memcmp(TpMap[0], t->map, sizeof t->map))
-            { mc_fail("pdo-stored-value", "after '%s' TPDO parameters are cob=%08X type=%d count=%d map=%08X,%08X,..,%08X; expected cob=%08X type=%d count=%d map=%08X,%08X,..,%08X", ev_name(e), TpCob[0], TpType[0], TpNum[0], TpMap[0][0], TpMap[0][1], TpMap[0][7], t->cob, t->type, t->count, t->map[0], t->map[1], t->map[7]); return MC_OK; }
+        if (RpCob[PN] != r->cob || RpType[PN] != r->type || RpNum[PN] != r->count || memcmp(RpMap[PN], r->map, sizeof r->map))
+            { mc_fail("pdo-stored-value", "after '%s' RPDO parameters are cob=%08X type=%d count=%d map=%08X,%08X,..,%08X; expected cob=%08X type=%d count=%d map=%08X,%08X,..,%08X", ev_name(e), RpCob[PN], RpType[PN], RpNum[PN], RpMap[PN][0], RpMap[PN][1], RpMap[PN][7], r->cob, r->type, r->count, r->map[0], r->map[1], r->map[7]); return MC_OK; }
+        if (TpCob[PN] != t->cob || TpType[PN] != t->type || TpNum[PN] != t->count || memcmp(TpMap[PN], t->map, sizeof t->map))
+            { mc_fail("pdo-stored-value", "after '%s' TPDO parameters are cob=%08X type=%d count=%d map=%08X,%08X,..,%08X; expected cob=%08X type=%d count=%d map=%08X,%08X,..,%08X", ev_name(e), TpCob[PN], TpType[PN], TpNum[PN], TpMap[PN][0], TpMap[PN][1], TpMap[PN][7], t->cob, t->type, t->count, t->map[0], t->map[1], t->map[7]); return MC_OK; }
     }
     restore_objects();
     return MC_OK;
 }
 
-static const mc_harness H = { "C14", "c14", 2, cfg_name, build, ev_name, step, 12, 5 };
+static const mc_harness H = { "C14", "c14", 6, cfg_name, build, ev_name, step, 12, 5 };
 int main(int argc, char **argv) { return mc_main(argc, argv, &H); }
